@@ -354,13 +354,60 @@ func (s *Schema) SpecV1() []byte {
 	}
 	rs := []any{}
 	for _, r := range s.Resources {
-		rs = append(rs, resourceJSON(r))
+		rs = append(rs, resourceJSONV1(r))
 	}
 	b, err := json.MarshalIndent(map[string]any{"dataTypes": types, "resources": rs}, "", " ")
 	if err != nil {
 		panic(err)
 	}
 	return b
+}
+
+// pagingContextV1: the root module's spec parser (spec-parser/.../MethodParser.java, toFieldList) has no
+// isPagingSupported flag; it prepends the two paging parameters to the method's parameter list, marked as included
+// from the hand-written restlidata.PagingContext record.
+var pagingContextV1 = map[string]any{"name": "PagingContext", "namespace": "github.com/PapaCharlie/go-restli/restlidata"}
+
+// resourceJSONV1 renders a resource the way the root module's spec parser emits it: the same shape as the v2
+// manifest (resourcePathSegments / pathKey, resourceSchema, methods with methodType / onEntity / params / return /
+// metadata / returnEntity, readOnlyFields, createOnlyFields) except for paging (see pagingContextV1).
+func resourceJSONV1(r *Resource) map[string]any {
+	out := resourceJSON(r)
+	ms := out["methods"].([]any)
+	for i, m := range r.Methods {
+		mm := ms[i].(map[string]any)
+		delete(mm, "isPagingSupported")
+		if m.Paging && m.Kind != "ACTION" {
+			ps := []any{}
+			for _, p := range [][2]string{{"start", "The starting offset"}, {"count", "The number of elements to return"}} {
+				ps = append(ps, map[string]any{"name": p[0], "doc": p[1], "type": typeJSON(P("int32")), "isOptional": true, "includedFrom": pagingContextV1})
+			}
+			mm["params"] = append(ps, mm["params"].([]any)...)
+		}
+	}
+	return out
+}
+
+// ForV1 restricts a schema (in place) to what the root-module generation supports; what v2 gets is not touched (the
+// caller applies it only when rendering for generation "v1"). It returns a note per change for the corpus log.
+//
+//   - partial_update with returnEntity: the root module's restli package has neither PartialUpdateWithReturnEntity nor
+//     RegisterPartialUpdateWithReturnEntity, yet its generator emits calls to both for such a method (the bindings do
+//     not compile; that is C12's subject). The method is kept as a plain partial_update.
+//
+// Everything else of ResourceCorpus is expressible for and accepted by the root generator.
+func (s *Schema) ForV1() []string {
+	var notes []string
+	for _, r := range s.Resources {
+		for i := range r.Methods {
+			m := &r.Methods[i]
+			if m.Kind == "REST_METHOD" && m.Name == "partial_update" && m.ReturnEntity {
+				m.ReturnEntity = false
+				notes = append(notes, r.Namespace+": partial_update loses returnEntity (no PartialUpdateWithReturnEntity in the root module)")
+			}
+		}
+	}
+	return notes
 }
 
 // Describe is the JSON the harness loads back (the schema itself).
